@@ -719,6 +719,20 @@ def run_model(case):
                 bad("not-loaded", "result", wrong, f"the result of run_mode (readout {step}) does not show the file's "
                     f"{wrong}; e.g. {example}")
                 break
+        # (3) ... and the file's processed data (node paths relative to the data root; no later model touches them)
+        wdata = want.get("data")
+        if isinstance(wdata, dict) and any(v["vars"] or v["coords"] or v["attrs"] for v in wdata.values()):
+            try:
+                node = result["/data"]
+                root = node.path.rstrip("/")
+                got = {("/" + p[len(root):].lstrip("/")): v for p, v in snap_tree(node).items()}
+            except KeyError:
+                got = {}
+            diffs = diff(wdata, got)
+            if diffs:
+                p0, a0, b0 = diffs[0]
+                bad("not-loaded", "result", ["data"], f"the result of run_mode does not show the file's processed data; "
+                    f"e.g. {p0}: file {_short(a0)} != result {_short(b0)} (result nodes {sorted(got)})")
     finally:
         shutil.rmtree(d, ignore_errors=True)
     return {"viol": viol, "sig": cfgx.sig([kind, fname, pos, steps]), "nontrivial": True, "n": 1,
